@@ -727,8 +727,20 @@ def run_c25(tier):
             ops.append({"op": "write", "buckets": [{"key": c.keyF, "cols": [{"name": "Epoch", "type": "i8", "vals": [ep - ep % tfsec]},
                                                                             {"name": "V", "type": "i4", "vals": [val]}]}]})
             want.append(val)
+        # ... and one request with UNSORTED variable-length records of one interval (the master sorts them when it writes its
+        # primary file - after the group was handed to the replication sender)
+        vb = base + 500 * 86400 // 4
+        vb -= vb % 60
+        vkey = "RVL%d/1Min/T" % ln
+        ops.append({"op": "write", "var": True, "buckets": [{"key": vkey, "cols": [
+            {"name": "Epoch", "type": "i8", "vals": [vb + 40, vb + 10, vb + 30]}, {"name": "V", "type": "i4", "vals": [4, 1, 3]},
+            {"name": "Nanoseconds", "type": "i4", "vals": [500000000, 600000000, 700000000]}]}]})
         ops.append({"op": "repl_sync", "x": {"refs": True}})
         ops.append({"op": "repl_cmp", "x": {"keys": [c.keyF]}})
+        ops.append({"op": "repl_use", "x": {"who": "replica"}})
+        ops.append({"op": "destroy", "key": vkey})
+        ops.append({"op": "repl_use", "x": {"who": "master"}})
+        ops.append({"op": "destroy", "key": vkey})
         for who in ("replica", "master"):
             ops.append({"op": "repl_use", "x": {"who": who}})
             ops.append({"op": "destroy", "key": c.keyF})
@@ -743,10 +755,13 @@ def run_c25(tier):
         if o is None or (isinstance(o, dict) and "died" in o):
             res.violation("master or replica died in the lagging-replica scenario: %s" % str(o)[-300:], replay)
             continue
-        wr = o[1:1 + ngr]
+        wr = o[1:2 + ngr]
         if any(x.get("err") or x.get("panic") for x in wr):
             raise Undecided("a master write of the lagging-replica scenario failed: %s" % [x for x in wr if x.get("err") or x.get("panic")][:1])
-        sy, cm = o[1 + ngr], o[2 + ngr]
+        sy, cm = o[2 + ngr], o[3 + ngr]
+        if sy.get("mutated_after_handover"):
+            res.violation("the bytes of transaction group(s) %s changed after the master handed them to the replication sender (which transmits them "
+                          "later from its own goroutine): a replica may receive something else than the committed transaction" % sy["mutated_after_handover"], replay)
         if sy.get("driver_error") or cm.get("driver_error"):
             raise Undecided("driver error in the lagging-replica scenario: %s" % str(sy)[:200])
         m = rows_of(cm["master"][c.keyF], c.keyF)
